@@ -277,7 +277,7 @@ def c19(run):
     viols, stats = vlib.validate(run, "QueryTrace", traces, "q")
     st = sum_stats(stats)
     hdr = headers_of(traces, {v[0] for v in viols})
-    attribute(run, viols, hdr, lambda clause, fam: ["C19"] if clause in WF else (["C01-C06"] if clause in RESULT else (["C13"] if clause == "ProcessDead" else [])))
+    attribute(run, viols, hdr, lambda clause, fam: ["C19"] if clause in WF else (["C01-C06"] if clause in RESULT else (["C19", "C13"] if clause == "ProcessDead" else [])))
     run.cov["traces_validated_against_impl"] = st.get("sc", 0)
     run.cov["samples"] = sample_headers(traces)
     run.cov["scenario_stats"] = st
@@ -312,7 +312,7 @@ def c18(run):
     hdr = headers_of(traces, {v[0] for v in viols})
     attribute(run, viols, hdr, lambda clause, fam: ["C18"] if clause in STREAM else [])
     # the results of the four modes must agree (S1: list requested first or not)
-    sst = session_validate(run, traces, lambda clause, fam: ["C18"] if clause == "Agree" else (["C13"] if clause == "ProcessDead" else []), name="ss")
+    sst = session_validate(run, traces, lambda clause, fam: ["C18"] if clause == "Agree" else ([run.prop, "C13"] if clause == "ProcessDead" else []), name="ss")
     run.cov["stream_stats"] = st
     run.cov["traces_validated_against_impl"] = st.get("plans", 0)
     if st.get("nexts", 0) == 0 or st.get("ops", 0) == 0:
@@ -340,7 +340,7 @@ def c09(run):
     scs += vlib.gen_random(run, binary, "compose", 600 if quick else 15000, "C09")
     chunks = max(1, min(vlib.NCPU // 2, len(scs) // 300))
     traces = vlib.replay(run, binary, "optim", scs, "op", chunks=chunks)
-    st = session_validate(run, traces, lambda clause, fam: ["C09"] if clause == "Agree" else (["C13"] if clause == "ProcessDead" else []))
+    st = session_validate(run, traces, lambda clause, fam: ["C09"] if clause == "Agree" else ([run.prop, "C13"] if clause == "ProcessDead" else []))
     if st.get("obs", 0) == 0:
         raise Infra("vacuous run")
     return vlib.finish(run, "model_checking",
@@ -366,13 +366,13 @@ def c16(run):
     scs += vlib.gen_random(run, binary, "compose", 800 if quick else 15000, "C16")
     chunks = max(1, min(vlib.NCPU // 2, len(scs) // 300))
     traces = vlib.replay(run, binary, "hints", scs, "h", chunks=chunks)
-    st = session_validate(run, traces, lambda clause, fam: ["C16"] if clause == "Agree" else (["C13"] if clause == "ProcessDead" else []))
+    st = session_validate(run, traces, lambda clause, fam: ["C16"] if clause == "Agree" else ([run.prop, "C13"] if clause == "ProcessDead" else []))
     if st.get("obs", 0) == 0:
         raise Infra("vacuous run")
     return vlib.finish(run, "model_checking",
                        rule=("Hints.tla derives the select hints twice - path based as the reference engine does, and top-down as the engine's "
                              "plan construction does - and TLC checks for every plan wrap3(wrap2(wrap1(leaf))) over 9 leaves (offset, @ literal, "
-                             "start(), end(), range selectors) and 13 wrappers (function, histogram_quantile, timestamp, clamp, aggregation by/without, unary minus, parentheses, "
+                             "start(), end(), range selectors) and 14 wrappers (function, the same series again over a narrower range, histogram_quantile, timestamp, clamp, aggregation by/without, unary minus, parentheses, "
                              "either side of a binary operator, parameterised aggregation, function with scalar argument) that the tuples are "
                              "equal and the hinted range covers every needed sample. The plans (and the general / random scenarios) are "
                              "replayed: the set of selects recorded by the instrumented storage for the engine without optimizers must equal "
@@ -403,7 +403,7 @@ def c10(run):
     scs += fb
     chunks = max(1, min(vlib.NCPU // 2, len(scs) // 200))
     traces = vlib.replay(run, binary, "dist", scs, "d", chunks=chunks)
-    st = session_validate(run, traces, lambda clause, fam: ["C10"] if clause == "Agree" else (["C13"] if clause == "ProcessDead" else []))
+    st = session_validate(run, traces, lambda clause, fam: ["C10"] if clause == "Agree" else ([run.prop, "C13"] if clause == "ProcessDead" else []))
     if st.get("obs", 0) == 0:
         raise Infra("vacuous run")
     return vlib.finish(run, "model_checking",
@@ -490,7 +490,7 @@ def c11(run):
     chunks = max(1, min(vlib.NCPU // 2, len(scs) // 60))
     # in-process GOMAXPROCS changes: children run sequentially inside, several children in parallel
     traces = vlib.replay(run, binary, "config", scs, "cf", chunks=chunks, j=max(1, vlib.NCPU // 4))
-    st = session_validate(run, traces, lambda clause, fam: ["C11"] if clause == "Agree" else (["C13"] if clause == "ProcessDead" else []))
+    st = session_validate(run, traces, lambda clause, fam: ["C11"] if clause == "Agree" else ([run.prop, "C13"] if clause == "ProcessDead" else []))
     if st.get("obs", 0) == 0:
         raise Infra("vacuous run")
     return vlib.finish(run, "model_checking",
@@ -517,7 +517,7 @@ def c20(run):
         log("Session.tla -simulate: %d histories of %d operations" % (len(got), ops))
     chunks = max(1, min(vlib.NCPU // 2, len(scs) // 20))
     traces = vlib.replay(run, binary, "session", scs, "se", chunks=chunks)
-    st = session_validate(run, traces, lambda clause, fam: ["C20"] if clause in ("Agree", "ReturnedResultsImmutable") else (["C13"] if clause == "ProcessDead" else []))
+    st = session_validate(run, traces, lambda clause, fam: ["C20"] if clause in ("Agree", "ReturnedResultsImmutable") else ([run.prop, "C13"] if clause == "ProcessDead" else []))
     run.cov["samples"] = [{"history": s["cfg"]["hist"][:12]} for s in scs[:2]]
     if st.get("obs", 0) == 0 or st.get("snaps", 0) == 0:
         raise Infra("vacuous run")
@@ -535,7 +535,7 @@ def c20(run):
 
 FAULT_CLAUSES = {
     "C13": {"PanicSurfaces", "ProcessDead", "ExecReturns", "OthersUnaffected"},
-    "C14": {"CancelFinal", "ExecReturns", "NoLeak"},
+    "C14": {"CancelFinal", "ExecReturns", "NoLeak", "ProcessHung"},
     "C15": {"ErrorSurfaces"},
     "C17": {"QuerierBeforeExec", "QuerierAfterReturn", "QuerierClosedOnce", "DataUnmodified"},
 }
@@ -681,7 +681,7 @@ def c12(run):
     vlib.GOENV["VREPLAY_RACE_LOG"] = racelog
     chunks = max(1, min(vlib.NCPU // 4, len(scs) // 10))
     traces = vlib.replay(run, binary, "concurrent", scs, "c", chunks=chunks, j=max(1, vlib.NCPU // 4), stall=180)
-    st = session_validate(run, traces, lambda clause, fam: ["C12"] if clause in ("Agree", "RaceFree") else (["C13"] if clause == "ProcessDead" else []))
+    st = session_validate(run, traces, lambda clause, fam: ["C12"] if clause in ("Agree", "RaceFree") else ([run.prop, "C13"] if clause == "ProcessDead" else []))
     run.cov["samples"] = [{"mix": s["cfg"]["mix"], "clients": s["cfg"]["k"], "rounds": s["cfg"]["rounds"]} for s in scs[:3]]
     if st.get("obs", 0) == 0:
         raise Infra("vacuous run")
